@@ -36,6 +36,7 @@ class C11(PipelineCheck):
                    'the program is compared by a labelled structural snapshot of every attribute '
                    '(sim/snap.asnap), translator-independent']
     PROBES = ('cross_language', 'shared_reuse', 'package_switch', 'overwritten_stage',
+              'second_program',
               'translator_exception')
     MAX_DEPTH = (1, 6)
     ROUNDS = (0, 1, 1, 2)
@@ -75,9 +76,31 @@ class C11(PipelineCheck):
         opts = {'cast_numbers': bool(c.get('cast_numbers'))}
         programs = [pickle.loads(b) for _, b in obs.stages]
         names = [n for n, _ in obs.stages]
+        # a second, unrelated program of the same session (the driver translates many
+        # programs with... a translator per program, but the property quantifies over ALL
+        # histories of one translator object): generated as the driver does, after
+        # resetting the word pool, so that identifiers may recur in other roles
+        try:
+            from src.generators.generator import Generator
+            from sim.core import apply_config
+            utils.random.reset_word_pool()
+            apply_config(dict(c, max_depth=min(c.get('max_depth', 3), 4)))
+            other = Generator(language=lang).generate()
+            programs.append(other)
+            names.append('other')
+            probes['second_program'] = 1
+        except SimAbort:
+            raise
+        except Exception:   # noqa  (C18's business)
+            pass
         if 'overwritten' in names:
             probes['overwritten_stage'] = 1
         ops = plan.get('history') or self.make_history(plan['run_seed'], len(programs), lang)
+        if names[-1] == 'other' and not plan.get('history'):
+            # make sure the unrelated program is seen by the shared translators early and late
+            io = len(programs) - 1
+            ops = [(io, lang, 'shared', 0)] + ops[:len(ops) // 2] + \
+                  [(io, lang, 'shared2', 0)] + ops[len(ops) // 2:] + [(io, lang, 'shared', 1)]
         plan['history'] = ops
         digests = [snap.digest(snap.asnap(p)) for p in programs]
         reference = {}
